@@ -490,7 +490,15 @@ fn print_tsplib(inst: &Inst) -> String {
         lines.push(format!("{l}{}{gap}{}{gap}{}{t}", n.id, fmt_coord(n.x, st, &mut ws), fmt_coord(n.y, st, &mut ws)));
     }
     lines.push(format!("DEMAND_SECTION{t}"));
-    for n in nodes.iter() {
+    // every line of a section carries its node id: the sections need not list the nodes in the same order
+    let mut by_demand_line = nodes.clone();
+    let mut order = Rng::new(st.ws_seed ^ 0x0D3A_4D5E);
+    match order.below(10) {
+        0 | 1 => order.shuffle(&mut by_demand_line),
+        2 => by_demand_line.reverse(),
+        _ => {}
+    }
+    for n in by_demand_line.iter() {
         lines.push(format!("{l}{} {}{t}", n.id, n.demand));
     }
     lines.push(format!("DEPOT_SECTION{t}"));
